@@ -121,7 +121,7 @@ def coq_case(spec: H.Spec, res: dict) -> str:
     def cls(c: H.Cls) -> str:
         ctor = "None" if c.ctor is None else f"(Some (Build_ctor {NL(c.ctor[0])} {SL(c.ctor[1])}))"
         return (f"(Build_cls {T(c.name)} {'true' if c.abstract else 'false'} {NL(c.bases)} "
-                f"{NL(c.props)} {NL(c.invs)} {NL(c.methods)} {ctor} {OB(c.wmt)})")
+                f"{NL(c.props)} {NL(c.invs)} {NL(c.methods)} {ctor} {H.coq_wmt(c.wmt)})")
 
     m = _chain("C1", "C0", (cls(c) for c in spec))
     if "exc" in res:
@@ -360,6 +360,14 @@ def corpus() -> List[Tuple[str, H.Spec]]:
                                C("U", False, ["S"]), C("V", False, ["T", "U"], [], ["IV"])]))
     # with_model_type set in the middle of a chain
     out.append(("wmt-chain", [C("A", True), C("B", True, ["A"], wmt=True), C("C", False, ["B"])]))
+    # empty @serialization() below a class with with_model_type=True (chain and diamond):
+    # the setting must pass through the class with the unset Serialization object
+    out.append(("wmt-unset-chain", [C("A", True, wmt=True), C("B", False, ["A"], wmt=H.UNSET),
+                                    C("C", False, ["B"]), C("D", False, ["C"], wmt=H.UNSET)]))
+    out.append(("wmt-unset-diamond", [C("A", True, wmt=H.UNSET), C("B", True, ["A"], wmt=True),
+                                      C("C", True, ["A"], wmt=H.UNSET), C("D", False, ["C", "B"], wmt=H.UNSET),
+                                      C("E", False, ["D"])]))
+    out.append(("wmt-unset-root", [C("A", False, wmt=H.UNSET), C("B", False, ["A"])]))
     # child declared before its parent (not a Python-consistent order)
     out.append(("child-first", [C("B", False, ["A"]), C("A", True)]))
     out.append(("cycle", [C("A", False, ["B"]), C("B", False, ["A"])]))
